@@ -12,7 +12,7 @@ CHECKS = {
    "held on the executions produced; trusted: encoding/binary as layout reference, Go -asan red zones after exact-size heap buffers; wider-than-16-bit types are sampled, not enumerated",
    "runtime monitoring: differential round-trip oracle + failure-injection non-interference monitor + AddressSanitizer build"),
  "C10": ("exploration",
-   "ReadFile executed in child processes behind a metering reader on ~3.7e5 (quick) / 1.2e6 (thorough) inputs: all token strings of length <=3 over a 60-spelling alphabet (incl. malformed spellings), all [flags] expression strings of <=4 tokens, every prefix / byte deletion / hostile insertion+replacement of corpus schemas, and every reader failure offset x chunking x error kind x {persistent, transient-then-EOF, transient-then-resume}; oracle = no panic/runaway/CPU-budget, fault => error, success => reader drained and an appended definition is not lost",
+   "ReadFile executed in child processes behind a metering reader on ~4.4e5 (quick) / 2.8e6 (thorough) inputs: all token strings of length <=3 over a 60-spelling alphabet (incl. malformed spellings), all [flags] expression strings of <=4 tokens, every prefix / byte deletion / hostile insertion+replacement of corpus schemas, and every reader failure offset x chunking x error kind x {persistent, transient-then-EOF, transient-then-resume} x {failing call returns no data, failing call returns the last bytes with the error}; oracle = no panic/runaway/CPU-budget, fault => error, success => reader drained and an appended definition is not lost",
    "held on the inputs explored; CPU budget (20 s) stands in for 'terminates'; completeness is tested with one fixed appended definition; thorough adds length-4 token strings and all insertion offsets",
    "runtime monitoring: boundary monitor (metering reader, panic/CPU/runaway meters) + metamorphic completeness oracle + exhaustive reader-fault injection"),
  "C11": ("exploration",
@@ -20,15 +20,15 @@ CHECKS = {
    "held on the (schema, layout) pairs explored; the model follows the comment-attachment and layout conventions of DESIGN Appendix A; [flags] expressions restricted to precedence-independent ones",
    "runtime monitoring: model-based oracle (independent expected-File model) over generated ASTs x layouts"),
  "C16": ("exploration",
-   "for every accepted text of the C11 corpus (AST families x 9 layouts) and of the comment-placement family (comments and stray separators inserted at token boundaries, ~2e4 accepted per quick run) the real Format output is parsed by the real ReadFile and compared with the original File on everything except comments/tags; the original File must itself equal the independent model, so the comparison cannot be vacuous",
+   "for every accepted text of the C11 corpus (AST families x 9 layouts), of the comment-placement family (comments and stray separators inserted at token boundaries, ~2e4 accepted per quick run) and of the near-language family (23 text-level perturbations of the printed corpus - doubled/swapped line ends, line breaks after keywords, attributes and arrows, members and attributes joined to the previous line ...; accepted or not is decided by the real ReadFile) the real Format output is parsed by the real ReadFile and compared with the original File on everything except comments/tags; the original File must itself equal the independent model, so the comparison cannot be vacuous",
    "held on the texts explored; inputs restricted to what ReadFile accepts; comment attachment deliberately not compared",
    "runtime monitoring: differential oracle through the real parser + model check"),
  "C17": ("exploration",
-   "for every accepted text of the C11 corpus and of the comment-placement family (block/line/long comments, stray separators at token boundaries) whose first Format succeeds, Format(Format(x)) is compared with Format(x) byte for byte",
+   "for every accepted text of the C11 corpus, of the comment-placement family (block/line/long comments, stray separators at token boundaries) and of the near-language family (23 text-level perturbations of the printed corpus) whose first Format succeeds, Format(Format(x)) is compared with Format(x) byte for byte",
    "held on the texts explored (AST families x 9 layouts, seeded random schemas)",
    "runtime monitoring: idempotence oracle over generated inputs"),
  "C13": ("exploration",
-   "every single semantic-error injection of the statement's classes, at every applicable site and under two layouts, into ~560 base schemas that the real ReadFile+Generate first accept (construct/ordering families + seeded random), executed in child processes; positive recursion cases and struct chains/cycles up to 64 definitions under a CPU budget",
+   "every single semantic-error injection of the statement's classes, at every applicable site and under two layouts, into ~560 base schemas that the real ReadFile+Generate first accept (construct/ordering families + seeded random), executed in child processes; positive recursion cases, struct chains/cycles up to 64 definitions (also closed by deprecated struct fields) under a CPU budget",
    "held on the (class, site, base) triples explored; out-of-range consts and self-containment through containers are deliberately not demanded (DESIGN section 8); one class x site is a recorded known finding",
    "runtime monitoring: mutation-injection workload with accept/reject oracle, CPU-budget monitor for the recursion analysis"),
  "C12": ("exploration",
@@ -36,11 +36,11 @@ CHECKS = {
    "held on the (schema, option set) pairs explored; single shapes x contexts are complete, combinations of shapes are sampled; 13 naming hazards are recorded known findings",
    "runtime monitoring: compile-as-oracle over a systematic schema matrix x generator options"),
  "C01": ("exploration",
-   "the codec corpus (every cell of the 30 x 11 x 7 matrix as a record with sentinel fields, plus the extremes family, separate-mode import sets and seeded random schemas, generated with GenerateUnsafeMethods by the real generator and compiled) is driven in child processes: 24/200 boundary-driven values (+ 6 with shifted variants) per record type x 3 encoders x 6 decoder entry points; the decoded value is compared with the encoded one by the harness's own normalising comparer",
-   "held on the (type, value, encoder, decoder) tuples executed; a defect made symmetrically by encoder and decoder is out of reach here (see C03); values avoid the Unix epoch instant, NaN and -0 map keys",
+   "the codec corpus (every cell of the 30 x 11 x 7 matrix as a record with sentinel fields, plus the extremes family, separate-mode import sets and seeded random schemas, generated with GenerateUnsafeMethods by the real generator and compiled) is driven in child processes: 24/200 boundary-driven values (+ 6 with shifted variants) per record type x 3 encoders x 6 decoder entry points (the two stream entry points also through readers delivering 1 byte / 7,1,3 bytes per call); the decoded value is compared with the encoded one by the harness's own normalising comparer",
+   "held on the (type, value, encoder, decoder) tuples executed; a defect made symmetrically by encoder and decoder is out of reach here (see C03); values avoid the Unix epoch instant and -0 map keys (NaN keys are included)",
    "runtime monitoring: round-trip oracle over a systematic type-shape matrix with a reflection bridge into generated code"),
  "C02": ("exploration",
-   "same corpus and values as C01; MarshalBebop, EncodeBebop (metering writer) and MarshalBebopTo into Size()+9-byte buffers with four different pre-fills; byte agreement (after reference decoding when a map has >= 2 entries), exact Size(), returned n, untouched pad bytes (canary) and independence from the pre-fill are checked per value",
+   "same corpus and values as C01, plus union values with two members set; MarshalBebop, EncodeBebop (metering writer) and MarshalBebopTo into Size()+9-byte buffers with four different pre-fills; byte agreement (after reference decoding when a map has >= 2 entries), exact Size(), returned n, untouched pad bytes (canary) and independence from the pre-fill are checked per value",
    "held on the values executed; the canary detects writes in the 9 bytes after Size() (a wilder overrun is the -asan builds' job in C20/C06)",
    "runtime monitoring: differential oracle between the three encoders + dirty-buffer canary monitor"),
  "C03": ("exploration",
@@ -76,7 +76,7 @@ CHECKS = {
    "held on ~6e4 (type, option set, value) triples per quick run; pairwise coverage of options in quick, full 2^5 in thorough",
    "runtime monitoring: differential oracle against the reference codec across generator configurations (+ AddressSanitizer build in thorough)"),
  "C14": ("exploration",
-   "on-disk schema trees (single large file; imports in combined mode; imports over distinct go_packages in separate mode; the extremes family; seeded random schemas; a cold tree of malformed texts) are parsed once in a -race build; ReadFile, Validate, Format and Generate under 6 option sets run 5x sequentially and from 8 goroutines x 20 repetitions on the one shared File, in 3 fresh processes (records kept per goroutine, one process per tree barrier-aligned); outputs must be byte-identical within and across processes, the File deep-unchanged, and the race logs empty; overlapping call pairs are counted (9e4 per quick run)",
+   "on-disk schema trees (single large file; imports in combined mode; imports over distinct go_packages in separate mode; the extremes family; seeded random schemas; a cold tree of malformed texts) are parsed once in a -race build; ReadFile, Validate, Format and Generate under 6 option sets run 5x sequentially and from 8 goroutines x 20 repetitions on the one shared File, in 3 fresh processes that walk the option sets in different rotations and directions (records kept per goroutine, one process per tree barrier-aligned); every slice of the File carries four spare slots that must stay untouched; outputs must be byte-identical within and across processes, the File deep-unchanged, and the race logs empty; overlapping call pairs are counted (9e4 per quick run)",
    "held on the schedules the Go scheduler produced; the race detector is happens-before based, so it reports races between accesses that were executed regardless of timing, not races on paths the workload never ran",
    "runtime monitoring: Go race detector + repeatability/purity oracle over sequential, concurrent and cross-process repetitions"),
  "C18": ("exploration",
@@ -84,7 +84,7 @@ CHECKS = {
    "exhaustive for n<=3 (and loop-free n=4 in separate mode), sampled beyond; cycle errors recognised by their text",
    "runtime monitoring: exhaustive small-graph enumeration with an independent digraph oracle and a differential inlining oracle"),
  "C19": ("fault_enumeration",
-   "the real bebopc-go and bebopfmt binaries run in scratch directories with a pre-existing sentinel target: input cells (valid incl. commented, const-dense and one-line schemas under 9 layouts, symlinked targets, lines up to 200 kB, every rejected file of testdata/invalid, validation errors, missing imports, nonexistent, directory, several files formatted twice, argument lists with a bad file in every position, failing runs without a pre-existing output) x fault cells injected from outside with strace: EVERY k-th openat/write/rename*/close/fsync/... call of a fault-free run fails, and separately the process is SIGKILLed at it, plus RLIMIT_FSIZE; oracle on exit status, printed messages and the target's bytes; successful bebopfmt -w output is re-parsed by the real ReadFile and compared with the original schema",
+   "the real bebopc-go and bebopfmt binaries run in scratch directories with a pre-existing sentinel target: input cells (valid incl. commented, const-dense and one-line schemas under 9 layouts, symlinked targets, lines up to 200 kB, every rejected file of testdata/invalid, validation errors, missing imports, nonexistent, directory, several files formatted twice, argument lists with a bad file in every position, three files in one run with an unwritable one in every position or the k-th system call failing, near-language texts classed at run time by the real ReadFile, failing runs without a pre-existing output) x fault cells injected from outside with strace: EVERY k-th openat/write/rename*/close/fsync/... call of a fault-free run fails, and separately the process is SIGKILLed at it, plus RLIMIT_FSIZE; oracle on exit status, printed messages and the target's bytes; successful bebopfmt -w output is re-parsed by the real ReadFile and compared with the original schema",
    "exhaustive over the system calls a fault-free run makes (per-thread counting; GOMAXPROCS=1), sampled over inputs; inconclusive if ptrace is unavailable",
    "runtime monitoring: syscall-level fault and crash-point injection (strace) around the real binaries with a file-state oracle"),
 }
